@@ -129,6 +129,14 @@ CLAIMED.update({
             "§3 C19"),
 })
 
+CLAIMED.update({
+    "C14": ("model_checking",
+            "exhaustive exploration of call histories with owned entropy: std::random_device::_M_getval() is interposed so every seed is a letter; every history of prior integrations up to depth 2 (quick) / 3 (thorough) over a 10-letter alphabet is run in a child process forked from a pristine parent, and each of 12 observed calls x seeds in its own grandchild; oracle = value bits and the hash of the complete argument stream of the same call in a fresh process",
+            "The integrators keep grids, counters and work arrays in function-local statics, so whether a call is affected by earlier ones is a property of the call sequence; all sequences up to the bound are executed (110 / 1110 histories, 2640 / 79920 observed calls) and compared bitwise with a fresh process, including an integrand that reads the whole vector it is handed and a needle integrand that drives Miser into its fall-back branch. In addition every method x dimension 1..6 x 4 regions (offset, anisotropic, width 1e-3, width 1e3) x budgets x 4 families x seeds runs in its own process: every argument vector has the right size and lies inside the hyper-rectangle, constants are integrated to rounding, smooth families within six plain-Monte-Carlo standard errors of the closed form; the 2D/3D front ends pass each coordinate within its own axis' range.",
+            "History alphabet and depth are finite; seeds are the values returned by the interposed entropy source (1,2 quick; 1..6 thorough). Three (method, dimension, region) inputs where Vegas misses a constant because of its absolute TINY threshold are recorded in KNOWN_FINDINGS.txt.",
+            "§3 C14"),
+})
+
 NOT_APPLICABLE = {
 }
 
